@@ -1,2 +1,40 @@
-(* C07 — statements to come *)
-Require Import RV.Model.Server.
+(* C07 — server answers only well-formed 1024-1500 byte requests, never amplifying.
+   Statements only. *)
+Require Import RV.Model.Bytes RV.Gen.Tables RV.Model.Message RV.Model.Merkle RV.Model.Request RV.Model.Keys
+        RV.Model.Server RV.Spec.MerkleGoals RV.Spec.RefVerify RV.Spec.ServerGoals.
+Require Import RV.Proofs.RequestFacts RV.Proofs.ReplyFacts RV.Proofs.ServerCorollaries.
+Local Open Scope N_scope.
+
+(* for EVERY datagram: the classifier accepts exactly the protocol's well-formed requests
+   (1024..1500 bytes; classic: decodes and has a 64-byte NONC; IETF: magic, exact frame length,
+   draft-13 among the first four VER entries, SRV absent or this server's, a 32-byte NONC), with
+   the same nonce and protocol — and never panics *)
+Theorem C07_only_wellformed :
+  forall srv d, ok_opt (classify srv d) = wellformed srv d /\ is_panic (classify srv d) = false.
+Proof. exact classify_wellformed. Qed.
+Print Assumptions C07_only_wellformed.
+
+Theorem C07_length_gate :
+  forall srv d n v, classify srv d = Ok (n, v) ->
+    length n = (match v with Google => 64 | RfcDraft13 => 32 end)%nat /\ (1024 <= length d <= 1500)%nat.
+Proof. exact classify_nonce_length. Qed.
+Print Assumptions C07_length_gate.
+
+(* every other datagram is dropped silently (it contributes no emission) *)
+Theorem C07_silent :
+  forall srv v ds1 a d ds2, wellformed srv d = None ->
+    accepted srv v (ds1 ++ (a, d) :: ds2) = accepted srv v (ds1 ++ ds2).
+Proof. exact accepted_skip_invalid. Qed.
+Print Assumptions C07_silent.
+
+(* no response is longer than the request that elicited it: with at most 64 requests per batch
+   every reply is at most 1024 bytes and every accepted request at least 1024 *)
+Theorem C07_size :
+  forall H ed_pk ed_sign, HashLen H -> PkLen ed_pk -> SigLen ed_sign ->
+    forall v srv lt ok now ds i,
+      let reqs := accepted srv v ds in
+      (i < length reqs)%nat -> (length reqs <= 64)%nat ->
+      (length (reply_bytes H ed_pk ed_sign v lt ok now reqs i) <= 1024)%nat
+      /\ (1024 <= length (req_dgram (nth i reqs req0)))%nat.
+Proof. exact reply_size. Qed.
+Print Assumptions C07_size.
